@@ -339,8 +339,9 @@ class TranslatorC(Translator):
                         ">>>": "ror",
                         "<<<": "rol"
                     }
-                    out = "bignum_%s(%s, %d, bignum_to_uint64(%s))" % (
-                        op[expr.op], arg0, expr.size, arg1
+                    # Reduce the count in the bignum domain
+                    out = "bignum_%s(%s, %d, bignum_to_uint64(bignum_umod(%s, bignum_from_uint64(%d))))" % (
+                        op[expr.op], arg0, expr.size, arg1, expr.size
                     )
                     out = "bignum_mask(%s, %d)"% (out, expr.size)
                 return out
